@@ -115,7 +115,7 @@ func (c cfg) ops() []op {
 	}
 	out = append(out,
 		op{Kind: "retention", Name: "scheduled-retention-run(now=clock)"},
-		op{Kind: "tick-retention", T: bs[nBuckets].Add(3 * 24 * time.Hour), Name: "tick-retention-run(event time=" + bs[nBuckets].Add(3*24*time.Hour).UTC().Format(time.RFC3339) + ")"},
+		op{Kind: "tick-retention", T: bs[nBuckets].Add(3 * 24 * time.Hour), Name: "Tick(data timestamp>=" + bs[nBuckets].Add(3*24*time.Hour).UTC().Format(time.RFC3339) + ")->rotation goroutine"},
 		op{Kind: "forced", Name: "forced-delete-oldest"},
 		op{Kind: "forced-gated", Name: "forced-delete-oldest(retention gate held)"},
 		op{Kind: "ttl", TTL: c.AltTTL, Name: "UpdateOptions(ttl=" + c.AltTTL.String() + ")"},
@@ -182,6 +182,7 @@ func (s *system) Fresh() (opsearch.Inst, []opsearch.Finding) {
 		panic(err)
 	}
 	in.db = db
+	db.InstallCounters()
 	return in, nil
 }
 
@@ -374,10 +375,29 @@ func (in *instance) Apply(o int) (fs []opsearch.Finding) {
 			}
 		}
 		in.guard(p.Kind, &fs, func() {
+			if p.Kind == "tick-retention" {
+				// the production path: database.Tick(data timestamp) -> tsEventCh -> rotation goroutine -> rt.run
+				if harnessErr != "" {
+					in.poisoned = true
+					return
+				}
+				_, runs, err := in.db.TickSync(now.UnixNano(), 3*time.Minute)
+				switch {
+				case err != nil:
+					harnessErr, in.poisoned = err.Error(), true
+				case runs != 1:
+					harnessErr, in.poisoned = fmt.Sprintf("Tick was followed by %d retention runs of the rotation goroutine, want 1", runs), true
+				}
+				ticks++
+				return
+			}
 			if !in.db.ScheduledRetention(now) {
 				panic("no retention task is registered with the scheduler")
 			}
 		})
+		if harnessErr != "" {
+			return nil
+		}
 		if in.poisoned {
 			return fs
 		}
@@ -453,6 +473,11 @@ func (in *instance) Apply(o int) (fs []opsearch.Finding) {
 }
 
 var outcomes = map[string]int{}
+
+// harnessErr: the asynchronous tick path could not be synchronised (never a verdict).
+var harnessErr string
+
+var ticks int
 
 func outcome(s string) { outcomes[s]++ }
 
@@ -584,6 +609,7 @@ type result struct {
 	Hidden     int            `json:"select_cases_with_an_expired_overlapping_segment"`
 	Nontrivial int            `json:"nontrivial_states"`
 	Positions  int            `json:"clock_positions"`
+	Ticks      int            `json:"ticks_through_the_rotation_goroutine"`
 	Skipped    bool           `json:"skipped,omitempty"`
 }
 
@@ -634,10 +660,13 @@ func newSystem(c cfg, base string) *system {
 
 func runConfig(c cfg, base string, d int) result {
 	sys := newSystem(c, base)
-	selects, hiddenCases, nontrivial = 0, 0, 0
+	selects, hiddenCases, nontrivial, ticks = 0, 0, 0, 0
 	outcomes = map[string]int{}
 	st := opsearch.ExploreFrom(sys, seeds(), d, sys.observe)
-	return result{Cfg: c, Stats: st, Selects: selects, Hidden: hiddenCases, Nontrivial: nontrivial, Outcomes: outcomes, Positions: len(c.clockPositions())}
+	if harnessErr != "" {
+		st.HarnessErr = harnessErr
+	}
+	return result{Cfg: c, Stats: st, Selects: selects, Hidden: hiddenCases, Nontrivial: nontrivial, Outcomes: outcomes, Positions: len(c.clockPositions()), Ticks: ticks}
 }
 
 type artefact struct {
@@ -710,7 +739,7 @@ func main() {
 		os.Exit(2)
 	}
 	var tot opsearch.Stats
-	nCfg, sel, hid, nontriv, maxDepth := 0, 0, 0, 0, 0
+	nCfg, sel, hid, nontriv, maxDepth, nticks := 0, 0, 0, 0, 0, 0
 	violCount := map[string]int{}
 	outc := map[string]int{}
 	for _, k := range opsearch.SortedKeys(res) {
@@ -737,6 +766,7 @@ func main() {
 			tot.Pruned += x.Stats.Pruned
 			sel += x.Selects
 			hid += x.Hidden
+			nticks += x.Ticks
 			nontriv += x.Nontrivial
 			if x.Stats.MaxDepth > maxDepth {
 				maxDepth = x.Stats.MaxDepth
@@ -775,6 +805,7 @@ func main() {
 	r.Set("replayed_ops", tot.ReplayedOps)
 	r.Set("transitions_not_expanded_after_finding", tot.Pruned)
 	r.Set("select_evaluations", sel)
+	r.Set("ticks_driven_through_the_rotation_goroutine", nticks)
 	r.Set("select_cases_with_an_expired_overlapping_segment", hid)
 	r.Set("states_with_some_but_not_all_segments_fully_expired", nontriv)
 	r.Set("op_outcomes", outc)
@@ -789,8 +820,7 @@ func main() {
 }
 
 // tickProbe drives the real write-path entry (database.Tick with a data timestamp 10 days ahead of the clock) once and
-// reports what the rotation goroutine did. Informational only (asynchronous, so never a verdict): it ties the
-// tick-retention operation of the search to the production call site rotation.go `rt.run(taskCtx, t, d.logger)`.
+// records what the rotation goroutine did (informational sample of the tick-retention operation).
 func tickProbe() string {
 	base, err := os.MkdirTemp("/dev/shm", "c07p-")
 	if err != nil {
@@ -804,15 +834,12 @@ func tickProbe() string {
 	defer in.Close()
 	before := ranges(in.db)
 	ts := in.now.Add(10 * 24 * time.Hour)
-	for i := 0; i < 400; i++ {
-		in.db.Tick(ts.Add(time.Duration(i) * 11 * time.Minute).UnixNano())
-		time.Sleep(5 * time.Millisecond)
-		if after := ranges(in.db); len(after) < len(before) {
-			return fmt.Sprintf("clock %s, ttl %s, segments %v: after Tick(data timestamp %s) the rotation goroutine's retention left %v",
-				in.now.UTC().Format(time.RFC3339), c.TTL, before, ts.UTC().Format(time.RFC3339), after)
-		}
+	used, runs, err := in.db.TickSync(ts.UnixNano(), 3*time.Minute)
+	if err != nil {
+		return "not synchronised: " + err.Error()
 	}
-	return "no removal observed within 2s of ticking"
+	return fmt.Sprintf("clock %s, ttl %s, segments %v: Tick(data timestamp %s) -> %d retention run(s) by the rotation goroutine, segments afterwards %v",
+		in.now.UTC().Format(time.RFC3339), c.TTL, before, time.Unix(0, used).UTC().Format(time.RFC3339), runs, ranges(in.db))
 }
 
 func replay(p string) {
@@ -855,6 +882,11 @@ func replay(p string) {
 	}
 	show("observe", sys.observe(in, nil))
 	in.Close()
+	if harnessErr != "" {
+		fmt.Println("HARNESS-ERROR:", harnessErr)
+		os.RemoveAll(base)
+		os.Exit(2)
+	}
 	os.RemoveAll(base)
 	if bad > 0 {
 		os.Exit(1)
